@@ -32,7 +32,11 @@ if [ "$applies" != no ]; then
     if [ "$fails" = 0 ] && [ "$nres" -ge 4 ]; then suite=pass; else suite="fail:$(echo "$out" | grep -E '^test .* FAILED' | grep -v '^test result' | head -3 | tr '\n' ';')"; fi
     # demos
     demos=""
-    for f in "$src"/*.rs; do [ -f "$f" ] || continue; cp "$f" nexosim/tests/; demos="$demos --test $(basename "$f" .rs)"; done
+    if [ -f "$src/demo.diff" ]; then
+      git apply "$src/demo.diff" && demos="--lib $(basename $(ls "$src"/demo_*.rs | head -1) .rs)"
+    else
+      for f in "$src"/*.rs; do [ -f "$f" ] || continue; cp "$f" nexosim/tests/; demos="$demos --test $(basename "$f" .rs)"; done
+    fi
     if [ -n "$demos" ]; then
       if timeout 600 cargo test --offline -p nexosim $demos >/tmp/confirm/$id-with.log 2>&1; then demo_with=pass; else demo_with=fail; fi
       git apply -R "$src/patch.diff" 2>/dev/null || git checkout -q -- nexosim/src
